@@ -6,6 +6,7 @@ import (
 	"errors"
 	"fmt"
 	"io"
+	"net"
 	"sort"
 	"strings"
 	"time"
@@ -62,6 +63,9 @@ type C19Sc struct {
 	// such an item (a failed item, no operation handler), and that refusal is what the innermost stage receives from
 	// its continuation, every time it calls it: an optional element of the item does not take the chain away
 	CoreCritical bool `json:"core_critical,omitempty"`
+	// ClosedClient (client driver): the client has been closed before the requests are made. The chain runs all the
+	// same; the transport, innermost, is what fails
+	ClosedClient bool `json:"closed_client,omitempty"`
 	// Rejected (batch-item chain): the request travels under a protocol version the executor does not support: 1 with
 	// an ordinary item, 2 with a lone Discover Versions item. The message-level core rejects such a request as a
 	// whole: no stage of the batch-item chain is entered, no handler runs, the answer is a failed item
@@ -126,7 +130,10 @@ func genC19(g *simrt.Tape, tier string) any {
 	if sc.Driver != "client" {
 		sc.Option = g.Draw(3)
 	}
-	if sc.Driver == "client" && g.Draw(3) == 0 {
+	if sc.Driver == "client" && g.Draw(8) == 0 {
+		sc.ClosedClient = true
+	}
+	if sc.Driver == "client" && !sc.ClosedClient && g.Draw(3) == 0 {
 		n := 2 + g.Draw(4)
 		sc.Behav = make([]ReqBehav, n)
 		for i := 0; i < n; i++ {
@@ -182,6 +189,10 @@ func c19Floor(tier string) []*C19Sc {
 	maxLen := 2
 	if tier == "thorough" {
 		maxLen = 3
+	}
+	// a closed client under short chains (pass-through, short-circuit, retry, replacing stages)
+	for _, st := range [][]StageSc{nil, {{Calls: 1}}, {{Calls: 0}}, {{Calls: 2}}, {{Calls: 1}, {Calls: 0}}, {{Calls: 1, Replace: true}, {Calls: 1, Wrap: true}}, {{Calls: 1, Ret: "err"}}, {{Stock: "timeout"}, {Calls: 1}}, {{Stock: "debug"}, {Calls: 2}}} {
+		out = append(out, &C19Sc{Driver: "client", Stages: st, Requests: 1 + len(st)%2, ClosedClient: true})
 	}
 	// the client transport re-dialling and re-sending under one- and two-stage chains
 	for _, bh := range [][]ReqBehav{{{CloseBefore: true}, {}}, {{}, {CloseBefore: true}}, {{}, {}, {CloseBefore: true}}} {
@@ -240,6 +251,8 @@ type chainModel struct {
 	echoCCV bool
 	// panicIn: when not empty the core panics; the value is the request name the panic message mentions
 	panicIn string
+	// closed: the client is closed: the transport fails without reaching the server
+	closed bool
 	// critical: the core refuses the item (critical message extension)
 	critical  bool
 	itemChain bool
@@ -266,6 +279,9 @@ func handDown(st StageSc, mark string, i, k int) string {
 
 // run returns the identity of the result and whether it is an error.
 func (m *chainModel) run(i int, ctxMark, msgMark string) (string, bool) {
+	if i == len(m.stages) && m.closed {
+		return "closed-client", true
+	}
 	if i == len(m.stages) {
 		m.trace = append(m.trace, fmt.Sprintf("core ctx=%s msg=%s", ctxMark, msgMark))
 		if m.critical && m.itemChain {
@@ -341,6 +357,9 @@ func pairIdentity(respID string, hasResp bool, err error) string {
 		return respID
 	}
 	msg := err.Error()
+	if errors.Is(err, net.ErrClosed) {
+		msg = "closed-client" // (the wording and wrapping are the library's business)
+	}
 	var ke kmipserver.Error
 	if errors.As(err, &ke) && ke.Reason == kmip.ResultReasonFeatureNotSupported {
 		msg = "critical-extension" // (the library's wording is its own business)
@@ -798,6 +817,9 @@ func execC19(x *X, scAny any) {
 			if sc.Sibling == 1 {
 				dialSibling()
 			}
+			if sc.ClosedClient && cl != nil {
+				_ = cl.Close()
+			}
 			ready = true
 		})
 	}
@@ -882,6 +904,7 @@ func execC19(x *X, scAny any) {
 		if sc.CorePanic {
 			m.panicIn = name
 		}
+		m.closed = sc.ClosedClient
 		m.critical = sc.CoreCritical
 		m.itemChain = sc.Driver == "server-item"
 		m.echoCCV = sc.Driver == "server-msg"
